@@ -71,6 +71,42 @@ def rec_shapes():
     return out
 
 
+INSERTED = ["?", "!", "(", ")", ",", "::", "&", "|", "~", "->", ":", "on", "rec r", "'p", ";", "=", "<", ">", "{", "}", "[", "]", "/", ".", "@", "x", "1", "\"s\""]
+
+
+def boundary_insertions(rng, count):
+    """well-formed programs of the specification's families and of the generator, with one token inserted at the start or
+    the end of a syntax node (the source map gives the boundaries): almost-valid programs, which reach the later phases"""
+    import gen
+    import render
+    ps = gen.programs(common.seed() * 1000 + 4, max(40, count // 120), p_bad=0.0, max_depth=2)
+    # members of the PosShape / FnPos families (every consuming position x every shape of value, accepted or not)
+    rf = run_tlc("EvalAbsMC", "EvalAbs_quick.cfg", workers=8, timeout=1800, java_opts=["-Xss512m"])
+    fam = [c["prog"] for c in rf.cases if c["ind"] in ("direct", "fnlocal")]
+    out = []
+    must = []
+    for k, p in enumerate(fam + ps):
+        if len(p["mods"]) > 1:
+            continue
+        rp = render.render_program(p)
+        m = p["main"]
+        text = rp["files"][rp["main"]]
+        raw = text.encode("utf-8")
+        ends = sorted(set(ent["span"][1] for ent in rp["maps"][m].values() if "span" in ent))
+        offs = sorted(set(o for ent in rp["maps"][m].values() if "span" in ent for o in ent["span"]))
+        if k < len(fam):
+            # the postfix operators after every node of every family member: exhaustive, not sampled
+            for off in ends:
+                for tok in ("?", "!"):
+                    must.append((raw[:off] + b" " + tok.encode() + raw[off:]).decode("utf-8"))
+        for off in offs:
+            for tok in rng.sample(INSERTED[2:], 2):
+                out.append((raw[:off] + b" " + tok.encode() + b" " + raw[off:]).decode("utf-8"))
+    must = list(dict.fromkeys(must))
+    rng.shuffle(out)
+    return must + list(dict.fromkeys(out))[:count]
+
+
 def in_process(chk, texts, label):
     pr = run_oalv_parallel("parse", [{"text": t} for t in texts], jobs=12)
     cr = run_oalv_parallel("compile", [{"main": "file:///w/main.oal", "files": {"file:///w/main.oal": t}, "want": {}} for t in texts], jobs=12)
@@ -186,13 +222,15 @@ def run(tier):
     in_process(chk, base + extreme, "corpus-and-extreme-lexemes")
     shapes = rec_shapes()
     in_process(chk, shapes, "recursive-declaration-shapes")
+    ins = boundary_insertions(rng, 3000 if q else 60000)
+    in_process(chk, ins, "token-inserted-at-node-boundaries")
     nb = 60 if q else 1500
     sample = extreme + rng.sample(shapes, min(len(shapes), nb)) + rng.sample(fam, min(len(fam), nb)) + rng.sample(muts, min(len(muts), nb)) + rng.sample(rnd, min(len(rnd), nb // 2)) + deep[:len(deep) if not q else 8]
     binaries(chk, sample, "sample")
-    chk.cov["distinct_nontrivial"] = len(set(fam)) + len(set(muts)) + len(set(rnd)) + len(set(deep))
+    chk.cov["distinct_nontrivial"] = len(set(fam)) + len(set(muts)) + len(set(rnd)) + len(set(deep)) + len(ins)
     chk.cov["rule"] = ("inputs: rendered token sequences of the parser families (extreme lexemes: u64 limits and beyond, empty strings, names at their "
                        "lexical limits), character/token-level mutants of the repository corpus, arbitrary strings over an alphabet with 2-4 byte "
-                       "characters, CR LF, NUL, BOM, nests to depth 200, self- and mutually-referential declarations through every expression form; each goes through tokenizer+parser, the full pipeline and oal_wasm::compile "
+                       "characters, CR LF, NUL, BOM, nests to depth 200, self- and mutually-referential declarations through every expression form, well-formed generated programs with one token of a 28-token set inserted at a syntax-node boundary; each goes through tokenizer+parser, the full pipeline and oal_wasm::compile "
                        "in process, a sample through the real oal-cli and oal-lsp; all inputs are de-duplicated and all are counted non-trivial "
                        "(each is a distinct text)")
     for lbl, s in (("family", fam), ("mutant", muts), ("unicode", rnd)):
